@@ -76,6 +76,8 @@ static uint8_t* arena_bindup_thrift(carquet_arena_t* arena, thrift_decoder_t* de
     const uint8_t* data = thrift_read_binary(dec, &len);
     *out_len = len;
     if (!data || len == 0) return NULL;
+    /* Without an arena (page headers) the value is borrowed from the input. */
+    if (!arena) return (uint8_t*)data;
     uint8_t* copy = carquet_arena_memdup(arena, data, (size_t)len);
     if (!copy && dec->status == CARQUET_OK) {
         dec->status = CARQUET_ERROR_OUT_OF_MEMORY;
@@ -781,8 +783,9 @@ carquet_status_t parquet_parse_page_header(
                             break;
                         case 5:
                             header->data_page_header.has_statistics = true;
-                            /* Skip statistics for now - arena needed */
-                            thrift_skip(&dec, ft);
+                            /* min/max point into `data` (no arena here) */
+                            parse_statistics(&dec, NULL,
+                                &header->data_page_header.statistics);
                             break;
                         default:
                             thrift_skip(&dec, ft);
@@ -849,7 +852,8 @@ carquet_status_t parquet_parse_page_header(
                             break;
                         case 8:
                             header->data_page_header_v2.has_statistics = true;
-                            thrift_skip(&dec, ft);
+                            parse_statistics(&dec, NULL,
+                                &header->data_page_header_v2.statistics);
                             break;
                         default:
                             thrift_skip(&dec, ft);
